@@ -52,7 +52,27 @@ case_strategy = st.fixed_dictionaries({
     "srcs": st.lists(src_st, min_size=0, max_size=40),
     "mode": st.sampled_from(["model", "model", "additive", "addsub", "mask-frac", "mask-sigma", "rename"]),
     "frac": f(0.05, 0.9), "sigma": f(2, 8), "split": st.integers(0, 40), "seed": st.integers(0, 2 ** 31 - 1),
+    # mask / rename modes: through make_model, a catalogue file (make_residual) or the AeRes command line; which of the six
+    # columns carry non-standard names (bit mask, 0 = none)
+    "via": st.sampled_from(["api", "file", "file", "cli"]),
+    "rename_mask": st.sampled_from([0, 0, 63, 63, 1, 2, 4, 8, 16, 32, 5, 24, 36]),
 })
+
+RENAMES = (("ra", "RAJ2000", "ra_col", "--racol"), ("dec", "DEJ2000", "dec_col", "--deccol"), ("peak_flux", "S", "peak_col", "--peakcol"),
+           ("a", "maj", "a_col", "--acol"), ("b", "min", "b_col", "--bcol"), ("pa", "theta", "pa_col", "--pacol"))
+
+
+def renamed_catalogue(catfile, out, mask):
+    """copy of the component table with the selected columns renamed; -> (colmap or None, CLI arguments)"""
+    t = Table.read(catfile)
+    colmap, argv = {}, []
+    for k, (old, new, key, opt) in enumerate(RENAMES):
+        if mask >> k & 1:
+            t.rename_column(old, new)
+            colmap[key] = new
+            argv += [opt, new]
+    t.write(out)
+    return (colmap or None), argv
 
 
 def build(c):
@@ -219,12 +239,8 @@ def check_case(c):
                 save_catalog(catfile, cat)
                 catfile = os.path.join(d, "cat_comp.csv")
                 if mode == "rename":
-                    t = Table.read(catfile)
-                    for old, new in (("ra", "RAJ2000"), ("dec", "DEJ2000"), ("peak_flux", "S"), ("a", "maj"), ("b", "min"), ("pa", "theta")):
-                        t.rename_column(old, new)
+                    colmap, _ = renamed_catalogue(catfile, os.path.join(d, "cat_renamed.csv"), c.get("rename_mask") or 63)
                     catfile = os.path.join(d, "cat_renamed.csv")
-                    t.write(catfile)
-                    colmap = {"ra_col": "RAJ2000", "dec_col": "DEJ2000", "peak_col": "S", "a_col": "maj", "b_col": "min", "pa_col": "theta"}
                 added = os.path.join(d, "added.fits")
                 back = os.path.join(d, "back.fits")
                 mfile = os.path.join(d, "model.fits")
@@ -267,6 +283,41 @@ def check_case(c):
                     else "no source's model exceeds its threshold there", int(wrong.sum())), **tags)
             if np.any(np.isfinite(np.asarray(mk)) & (np.asarray(mk) != 0)):
                 res.bad("mask-values", "mask mode returns non-zero finite values", **tags)
+            via = c.get("via", "api")
+            if via != "api" and cat and not res.violations:
+                # the same through a catalogue file (optionally with renamed columns) and through the AeRes command line:
+                # the output image is the input with exactly those pixels blanked
+                rng = np.random.default_rng(c["seed"])
+                img = rng.normal(size=shape).astype(np.float32)
+                path = os.path.join(d, "im.fits")
+                skyimg.write_fits(path, img, hdr, dtype=np.float32)
+                save_catalog(os.path.join(d, "cat.csv"), cat)
+                colmap, cargv = renamed_catalogue(os.path.join(d, "cat_comp.csv"), os.path.join(d, "cat_in.csv"), c.get("rename_mask", 0))
+                outf = os.path.join(d, "masked.fits")
+                if via == "file":
+                    kw = {"frac": c["frac"]} if mode == "mask-frac" else {"sigma": c["sigma"]}
+                    AeRes.make_residual(path, os.path.join(d, "cat_in.csv"), outf, mask=True, colmap=colmap, **kw)
+                else:
+                    from AegeanTools.CLI import AeRes as aeres_cli
+                    argv = ["-c", os.path.join(d, "cat_in.csv"), "-f", path, "-r", outf, "--mask"] + cargv
+                    argv += ["--frac", repr(c["frac"])] if mode == "mask-frac" else ["--sigma", repr(c["sigma"])]
+                    aeres_cli.main(argv)
+                if not os.path.exists(outf):
+                    res.bad("mask-file-missing", "mask mode via %s wrote no output image" % via, via=via, **tags)
+                else:
+                    o_img = np.asarray(fits.getdata(outf), dtype=np.float64)
+                    fblank = ~np.isfinite(o_img)
+                    wrong = (fblank != want) & ~band
+                    if wrong.any():
+                        i, j = [int(v[0]) for v in np.where(wrong)]
+                        res.bad("mask-file-set", "mask mode (%s) via %s, renamed columns %s: pixel (%d,%d) is %s in the output image "
+                                "but %s; %d pixels differ" % (mode, via, sorted((colmap or {}).values()), i, j,
+                                                              "blank" if fblank[i, j] else "kept",
+                                                              "should be blank" if want[i, j] else "should be kept", int(wrong.sum())),
+                                via=via, **tags)
+                    elif not np.array_equal(o_img[~fblank], img.astype(np.float64)[~fblank]):
+                        res.bad("mask-file-values", "mask mode via %s changes pixels it does not blank" % via, via=via, **tags)
+                res.label("mask-via-" + via, "mask-renamed" if colmap else "mask-std-columns")
     finally:
         shutil.rmtree(d, ignore_errors=True)
     edge = any(s_["where"] in ("edge", "off", "far") for s_ in sources)
